@@ -87,6 +87,7 @@ type condLeaf struct {
 	V     ssa.Value
 	Conds []Cond
 	At    *ssa.BasicBlock
+	Via   *ssa.BasicBlock // predecessor of the outermost merge this alternative came in through (nil: no merge)
 }
 
 func selfCond(pred, succ *ssa.BasicBlock) []Cond {
@@ -118,7 +119,7 @@ func (a *FA) leavesOf(v ssa.Value, blk *ssa.BasicBlock, depth int) []condLeaf {
 		var out []condLeaf
 		for _, l := range a.leavesOf1(v, blk, 0) {
 			for _, cs := range a.expandBoolPhis([][]Cond{l.Conds}) {
-				out = append(out, condLeaf{V: l.V, Conds: cs, At: l.At})
+				out = append(out, condLeaf{V: l.V, Conds: cs, At: l.At, Via: l.Via})
 			}
 		}
 		return out
@@ -150,6 +151,7 @@ func (a *FA) leavesOf1(v ssa.Value, blk *ssa.BasicBlock, depth int) []condLeaf {
 		sub := a.leavesOf1(e, pred, depth+1)
 		sc := selfCond(pred, p.Block())
 		for _, l := range sub {
+			l.Via = pred // the outermost merge overrides the inner ones as the recursion unwinds
 			l.Conds = append(append([]Cond{}, l.Conds...), sc...)
 			// plus the conditions of the using block (they hold at the return as well)
 			l.Conds = append(l.Conds, a.Conds(blk)...)
@@ -248,6 +250,11 @@ type errException struct {
 
 // ReportErrProp files R-ERRPROP obligations for the listed functions.
 // errResult: index of the error result in each function's signature is found by type.
+// errPropNoTranslation: functions in which an error of the callee must come back as it is: choosing a package-level
+// error variable instead (a translation such as io.EOF -> io.ErrUnexpectedEOF, legitimate in pbcmpl) would hide the
+// callee's failure. C18: "an error from the underlying writer is propagated" - it wins over io.ErrShortWrite.
+var errPropNoTranslation = map[string]bool{}
+
 func ReportErrProp(w *World, r *Report, exceptions []errException, fnNames ...string) int {
 	r.Rule("R-ERRPROP", "every call that returns an error: on each return reachable from it either the error is known nil (dominating test), or it is known non-nil and the function returns it (identity, nil-preserving wrapper, or a package-level error variable chosen under a test), or it is returned unconditionally; it is never dropped. Listed belief sites are exceptions with a reason")
 	total := 0
@@ -315,6 +322,10 @@ func ReportErrProp(w *World, r *Report, exceptions []errException, fnNames ...st
 					continue
 				}
 				for _, leaf := range fa.leavesOf(ret.Results[errIdx], ret.Block(), 0) {
+					// an alternative of a merged result that comes in from a path the call is not on says nothing about it
+					if leaf.Via != nil && leaf.Via != callIns.Block() && !fa.Reaches(callIns.Block(), leaf.Via) {
+						continue
+					}
 					nret++
 					nn := nilnessUnder(leaf.Conds, es.Err)
 					src := unwrapErr(leaf.V)
@@ -324,8 +335,10 @@ func ReportErrProp(w *World, r *Report, exceptions []errException, fnNames ...st
 					case 1:
 						if errAliases(es.Err)[src] {
 							facts = append(facts, fmt.Sprintf("return at %s: returns it (non-nil edge)", w.InstrPos(ret)))
-						} else if g, ok := isGlobalErrVarLoad(src); ok {
+						} else if g, ok := isGlobalErrVarLoad(src); ok && !errPropNoTranslation[n] {
 							facts = append(facts, fmt.Sprintf("return at %s: returns %s on the non-nil edge", w.InstrPos(ret), g))
+						} else if ok {
+							bad = fmt.Sprintf("on the edge where the error of %s is non-nil the function returns %s at %s instead of that error: the callee's failure must take precedence", es.Name, g, w.InstrPos(ret))
 						} else {
 							bad = fmt.Sprintf("on the edge where the error of %s is non-nil the function returns %s at %s instead of that error", es.Name, fmtVal(w, leaf.V), w.InstrPos(ret))
 						}
